@@ -13,12 +13,12 @@ def call(f, *a, **k):
 
 
 SCHEMES = ["http", "https"]
-USERINFO = ["", "u@", "u:p@", "u:@", ":p@", "a@b@", "u%40x:p%3A@"]
+USERINFO = ["", "u@", "u:p@", "u:@", ":p@", "a@b@", "u%40x:p%3A@", "u%7Cx:%7c@"]
 HOSTS = ["x.com", "www.x.co.uk", "localhost", "127.0.0.1", "[::1]", "[fe80::a]", "X.COM", "a.b.blogspot.com", "x.com.", "nosuffix", "é.fr"]
 PORTS = ["", ":80", ":8080", ":0"]
-PATHS = ["", "/", "/a", "/a/", "/a//b", "/a/b/", "//", "/a:b", "/@a", "/a;p"]
-QUERIES = ["", "?", "?q=1", "?a=1&b=2", "?x:y@z", "?a=/b"]
-FRAGS = ["", "#", "#f", "#a:b", "#/a?b"]
+PATHS = ["", "/", "/a", "/a/", "/a//b", "/a/b/", "//", "/a:b", "/@a", "/a;p", "/a%7Cb", "/%7c/%7C", "/a%2Fb%20c", "/%25"]
+QUERIES = ["", "?", "?q=1", "?a=1&b=2", "?x:y@z", "?a=/b", "?q=%7C&%7c", "?%3A=%23"]
+FRAGS = ["", "#", "#f", "#a:b", "#/a?b", "#%7C"]
 
 
 def grammar_urls(rng, n):
